@@ -256,6 +256,9 @@ fx('two_wake_one', 'make_waiter(0,0); make_waiter(1,0)', ['WAKE_ONE()', 'WAKE_ON
 CXX_ = ['babylon/basic_executor.cpp']
 for _k, _nm in ((0, 'cancellable'), (1, 'future'), (2, 'task')):
     S('cx_seq_' + _nm, 'coro/cx_seq.cpp', {'assert': 'C13'}, std=20, defs=['VF_KIND=%d' % _k], extra=CXX_, models=['sc'], bound=8)
+CX2FIN = 'vf_check(resumed[1] == 0 && finished[1] == 0, 6); SET(1, 43); vf_check(resumed[1] == 1 && has_value[1] == 1 && value[1] == 43 && in_exec_at_resume[1] == 1, 7)'
+S('cx2_cancel_vs_new_wait', 'coro/cx2.cpp', {'assert': 'C13'}, std=20, defs=['VF_T0=CANCEL(0)', 'VF_T1=START(1)', 'VF_FINAL=vf_check(cancel_ret[0] == 1 && resumed[0] == 1 && has_value[0] == 0 && in_exec_at_resume[0] == 1, 4); ' + CX2FIN], extra=CXX_, tiers=DEV)
+S('cx2_finish_vs_new_wait', 'coro/cx2.cpp', {'assert': 'C13'}, std=20, defs=['VF_T0=SET(0, 42)', 'VF_T1=START(1)', 'VF_FINAL=vf_check(resumed[0] == 1 && has_value[0] == 1 && value[0] == 42 && in_exec_at_resume[0] == 1, 4); ' + CX2FIN], extra=CXX_, tiers=DEV)
 CXFIN = 'vf_check(resumed == 1 && finished == 1 && in_exec_at_resume == 1, 4); vf_check((cancel_ret == 1) == (has_value == 0), 3); if (has_value) vf_check(value == 42, 3)'
 S('cx_cancel_vs_set', 'coro/cx.cpp', {'assert': 'C13'}, std=20, defs=['VF_KIND=0', 'VF_T0=SET(42)', 'VF_T1=CANCEL()', 'VF_FINAL=' + CXFIN], extra=CXX_, tiers=DEV)
 S('cx_future_set', 'coro/cx.cpp', {'assert': 'C13'}, std=20, defs=['VF_KIND=1', 'VF_T0=SET(42)', 'VF_T1=vf_yield()', 'VF_FINAL=vf_check(resumed == 1 && finished == 1 && value == 42 && in_exec_at_resume == 1, 4)'], extra=CXX_, tiers=DEV)
@@ -383,7 +386,7 @@ for _s in ALL:
 # ----------------------------------------------------------------------------------------------- manifest texts
 LEVEL_TEXT = {
  'C01': 'Real ConcurrentBoundedQueue<two-word payload, VS> IR; client programs of 2-4 threads mixing push/pop/try_/push_n/pop_n/callback variants on capacities 1-2; oracle = exactly-once multiset, per-thread FIFO, fully published payload, try_ success when sequenced after enough completed operations.',
- 'C02': 'Same queue scenarios with balanced push/pop counts; STUCK query: can any thread sleep in futex_wait with no later wake (lost wake-up/deadlock) - decided for every interleaving and store-buffer/reordering behaviour of the sc/tso/arm models; spurious wake-ups not relied on. The timed exclusive pop and spin-wait liveness are outside the claim (stated).',
+ 'C02': 'Same queue scenarios with balanced push/pop counts; STUCK query: can any thread sleep in futex_wait with no later wake (lost wake-up/deadlock) - decided for every interleaving and store-buffer/reordering behaviour of the sc/tso/arm models; spurious wake-ups not relied on. Includes the 16-bit slot version at 0xFFFF with the full slot freed by a single pop and by the batch pop path (pop_n). The timed exclusive pop and spin-wait liveness are outside the claim (stated).',
  'C03': 'Real ConcurrentFixedSwissTable (SSE group loads scalarised) with a harness hasher: two emplaces of one key (one winner, same element) and emplace vs find reading the mapped value (found element fully constructed) under sc/arm; sequential 64-bucket probing agreement between emplace and find/contains/count with prefilled groups and symbolic home group/tag. Also: two DIFFERENT keys sharing the 7-bit tag and home group racing for one slot (each key one winner, own element, both found; with a prefilled group and with a concurrent lookup), and a full 16-bucket table refusing a symbolic key without consuming the (move-tracking) argument. Growing set and growth races are outside the current scenarios (stated).',
  'C04': 'Real ConcurrentVector<E,0> (block size 1-2) grown by 2 threads: same index => same address, constructed value visible, ctor/dtor balance after destruction, snapshot reader vs grower, gc() vs grower with symbolic clock; RetireList driven directly with a symbolic clock (1024 s windows at 0 and across the 16-bit timestamp wrap): nothing freed < 64 s after retirement.',
  'C05': 'Real anyflow sources (builder, graph, vertex, data, dependency, closure, executor .cpp + headers) with the graph built by the real GraphBuilder during set-up. (a) Sequential whole-pipeline scenarios on the inplace executor: a chain, and a fan-out/fan-in graph with on/unless conditional dependencies, an essential dependency, an unneeded vertex, symbolic inputs / condition / requested-target set, run twice with reset() in between; oracle = a reference demand-driven evaluation (target values, which vertices ran, once, after their dependencies, closure finished rc 0). (b) Concurrent unit scenarios of the dependency counter protocol: graph->run() (activation) on one thread racing with the external publication of the condition and of the target data on two other threads through the real emit()/release() path, for on/unless, condition true/false, one or two dependencies on the same data; the harness executor only records vertex invocations; oracle = exactly one invocation of the dependent vertex, after the condition was evaluated and (if it holds) the target was ready, producers activated at most once / never when not needed. Thread-pool executor, channels, mutable dependencies and >3 threads are outside the scenarios (stated).',
@@ -391,7 +394,7 @@ LEVEL_TEXT = {
  'C08': 'Real FutureContext<two-word value, VS> / CountDownLatch: set_value vs on_finish (before/after/concurrent) vs get / wait_for(symbolic timeout incl. negative and the 2^16 largest values, symbolic monotone ns clock < 2^16); callbacks once with the value, get returns it, wait_for true => ready, false => time elapsed; STUCK query for get.',
  'C09': 'Real Epoch (x86-64 tick): reader regions (accessor, nested, moved between threads, second slot, released/unlocked accessor) vs unlink+tick+low_water_mark; a reader that still sees the old cell never observes it reclaimed; released/unlocked accessors do not hold the mark back. sc/tso/arm.',
  'C10': 'Sequential mode on the real keep_reclaim(): 0-2 retires, optional reader region closing at a symbolic back-off sleep, stop marker; every reclaimer exactly once, never while the region is open, before the collector returns; plus a region-enter and a retire injected during the queue intake of the collector (reclaimer move-constructor as re-entrant scheduling hook; plain and wrapped two-part intake): that object is never reclaimed while the region is open. Batch retirement with explicit older epochs (retire(r, epoch)) mixed with ordinary retires, so that one intake batch is not ascending, with a region opened at a symbolic point: exactly once, never early. A concurrent collector thread is outside: the three scenarios built for it do not finish within 25 minutes and are not registered.',
- 'C13': 'Real coroutine futex.cpp + DepositBox with hand-made coroutine frames (real await_suspend, resume through the bound executor): wake_one / wake_all / cancel / new waiter races for 2 waiters; each suspension resumed exactly once on its executor, wake_one resumes a non-cancelled waiter if one exists, non-matching value does not suspend. Task/Future awaiters are outside.',
+ 'C13': 'Real coroutine futex.cpp + DepositBox with hand-made coroutine frames (real await_suspend, resume through the bound executor): wake_one / wake_all / cancel / new waiter races for 2 waiters; each suspension resumed exactly once on its executor, wake_one resumes a non-cancelled waiter if one exists, non-matching value does not suspend. Real C++20 coroutines (clang -O1 coroutine lowering is part of the IR): a Task on a harness executor co_awaits Cancellable<Task> whose inner task awaits a Future (set_value / cancellation token / double cancel in a symbolic sequential order), a Future, and a Task awaiting a Future: resumed exactly once on its executor, value iff cancellation lost, the loser reports false, the deposit-box slot is given back. cancel || set_value on two threads and two racing cancellable waits are built but not registered (dev tier).',
  'C14': 'Real IdAllocator<uint32_t> (pop vs pop-push-pop ABA, mint race, reuse when free values exist, symbolic alloc/free history of 4 ops vs reference set incl. for_each and end()) and DepositBox (2-3 takers one winner, stale id never matches across slot reuse). ThreadId across three sequential thread generations in two id spaces: stable within a thread, the value of an exited thread is reused with a new version, end() does not grow, for_each reports exactly the live thread. Concurrent thread exit/creation is outside.',
  'C15': 'Real ConcurrentTransientTopic<two-word payload, VS>: publish / publish_n / close vs 1-2 consumers (consume, consume(2)), two publishers; exact sequence then end marker, payload fully visible, STUCK query for consumers. clear()/reuse outside.',
  'C16': 'Real ConcurrentExecutionQueue with a harness Executor (inline / parked consumer): items consumed exactly once, never two consumers at once (plain-access detector), no item stranded once every accepted consumer has run. join() and two sequential items are thorough-tier; concurrent refused-launch races are outside (built, not finishing, not registered; the sequential symbolic refusal schedule covers the refusal logic).',
@@ -399,9 +402,9 @@ LEVEL_TEXT = {
  'C18': 'Sequential mode on the real ConcurrentTransientHashSet: default / sized(4,16) construction, N inserts with duplicates (N symbolic <= 6, and exactly 34 to cross two chained tables), then size/empty/iteration/find/contains vs a reference bitmap. Plus: a COPY of a set grown to 20 elements / of a sized set; histories of 20 (chained tables) or 5 inserts followed by clear / move-construction / move-assignment over a non-empty set / swap (reserve and rehash of the sized set in the thorough tier) and a further symbolic insert, the moved-from and swapped-with sets checked too. reserve/rehash of a chained set and symbolic insert counts above 8 are outside.',
  'C07': 'Real ThreadPoolExecutor (started with 0 OS threads; a harness thread runs the real keep_execute() worker loop): submit()/execute() of 1-2 tasks, the STOP markers of stop(), join == worker returned; every accepted task ran exactly once on a thread that reports is_running_in(), before the stopper passes its join; STUCK query on the futex-based global queue. Sequential re-entrant scenarios run the real start()/stop()/keep_execute()/keep_balance() with std::thread played by the harness: a task that spawned a child into its local queue is pre-empted while another thread stops the pool and the balance thread performs its last steal pass (local capacity 0/2, balance thread on/off, symbolic spawn): nothing accepted is lost behind the STOP tokens. Owner pop vs steal: the real worker loop on a local queue prefilled the way enqueue_task does, racing a harness thread that performs the own try_pop call of the steal loop<true,false> on it - the task runs exactly once (never moved out twice). Work stealing between 2 full workers is thorough-tier; concurrent tasks-spawning-tasks and the new-thread executor are outside.',
  'C11': 'Sequential mode: real babylon serialization traits + BABYLON_COMPATIBLE aggregates over the real protobuf coded-stream inline code, with a model of the out-of-line libprotobuf stream functions (harness/serial/pbmodel.cpp, validated against the real library by native replay of every witness): round trip and predicted size for ALL values of uint64 / int32+bool / nested aggregate, varint wire compatibility with a reference encoder, unknown fields of every wire type skipped, arbitrary input bytes up to 4 (terminates, no read past the input, success => re-serialises and re-parses to itself); a nested aggregate with a payload of 121..132 bytes (symbolic last field) across the one/two-byte length-prefix boundary: predicted size == bytes produced, own output parses back, following field found. The serialized bytes re-parsed through a ZeroCopyInputStream-backed CodedInputStream in symbolic chunk sizes (1..3), with and without an enclosing limit, give the same value (the stream model follows coded_stream.cc and is validated against the real library on every run). Strings, containers, smart pointers, protobuf messages, hostile stream-backed inputs outside.',
- 'C12': 'Sequential mode on the real ReusableVector<uint64_t> over ExclusiveMonotonicBufferResource: 2-3 symbolic operations (push_back, pop_back, insert(pos), erase(pos), resize, clear, assign with symbolic positions/counts) from an empty or 3-element vector, compared after every step with a reference array; size <= constructed_size <= capacity, clear keeps capacity. Plus the re-creation the manager performs: a nested ReusableVector<ReusableVector<uint64_t>> with two inner vectors of symbolic sizes, allocation metadata recorded, a fresh instance built from it on a fresh resource (logically empty, retained capacity covers the largest recorded inner vector), the same workload repeated with no new memory taken from the resource. Strings, nested reusable elements, manager cadence outside.',
+ 'C12': 'Sequential mode on the real ReusableVector<uint64_t> over ExclusiveMonotonicBufferResource: 2-3 symbolic operations (push_back, pop_back, insert(pos), erase(pos), resize, clear, assign with symbolic positions/counts) from an empty or 3-element vector, plus insert(pos,count,value) / erase(first,last) / resize / clear / push / pop sequences of 3 operations from a 3-element vector, compared after every step with a reference array; size <= constructed_size <= capacity, clear keeps capacity. Plus the re-creation the manager performs: a nested ReusableVector<ReusableVector<uint64_t>> with two inner vectors of symbolic sizes, allocation metadata recorded, a fresh instance built from it on a fresh resource (logically empty, retained capacity covers the largest recorded inner vector), the same workload repeated with no new memory taken from the resource. Strings, nested reusable elements, manager cadence outside.',
  'C19': 'Sequential thread generations (each generation = a new logical thread after the previous one exited and its thread_local destructors ran; natively replayed on real std::threads): adder/summer exact across thread exit and thread-id reuse, maxer/miner extreme of the period for arbitrary 64-bit inputs, local() stable, for_each vs for_each_alive, a new counter recycling a destroyed one starts from zero; a new CompactEnumerableThreadLocal instance created and used from inside the destructor wipe loop of another instance (default-constructor hook) starts from zero and keeps its contents; EnumerableThreadLocal / compact instances moved (move-assigned, rotated through a temporary) while the one-entry local() cache of the thread names one of them (symbolic): local() stays private per (thread, instance) and for_each sums match, also for a later thread generation. Concurrent counting-vs-reading outside.',
- 'C20': 'Sequential mode: real LogStreamBuffer + LogEntry::append_to_iovec for every length <= 40 (page 16): scatter list == bytes written, every page once; real AsyncFileAppender write() x3 with symbolic entry lengths 0..2, stop marker, real keep_writing(): file == concatenation, pages returned. write_use_plain_writev is driven directly with 1020..1030 iovecs against a writev that rejects more than IOV_MAX; a concurrent writer thread is outside (scenarios built, not finishing, not registered).',
+ 'C20': 'Sequential mode: real LogStreamBuffer + LogEntry::append_to_iovec for every length <= 40 (page 16): scatter list == bytes written, every page once; the same with one flush (pubsync) at a symbolic position inside an entry of length <= 24; real AsyncFileAppender write() x3 with symbolic entry lengths 0..2, stop marker, real keep_writing(): file == concatenation, pages returned. write_use_plain_writev is driven directly with 1020..1030 iovecs against a writev that rejects more than IOV_MAX; a concurrent writer thread is outside (scenarios built, not finishing, not registered).',
 }
 LEVEL_NOTE = {'C05': 'C05 additionally trusts the harness models of a few out-of-line libstdc++/abseil container functions (listed in the evidence assumptions).'}
 TECH_EXTRA = {}
